@@ -1317,6 +1317,89 @@ def oracle(ctx, Surrogates, RecurrencePlot, rng, nprng, quick):
                 break
         ctx.case(("oracle", data.tobytes().hex(), seed, tuple(hist)), n >= 4)
 
+    # ---- twin surrogates after the data or the embedding changed on the object -----------
+    # (the embedding must follow original_data; memoised twins must follow the embedding)
+    nst = 150 if quick else 1200
+    for c in range(nst):
+        kind, data, tags = gen_data(rng, nprng, quick, kinds=("int", "dyadic", "periodic", "two-level",
+                                                             "float"), variants=False)
+        N, n = data.shape
+        dim = rng.choice([1, 1, 2, 3])
+        delay = rng.choice([0, 1, 2])
+        if (dim - 1) * delay > n:
+            dim, delay = 1, 0
+        thr = rng.choice([0.125, 0.5, 1.0, 0.3, 0.7])
+        md = rng.choice([0, 1, 2, 7])
+        seed = rng.randrange(2 ** 31)
+        pyrandom.seed(seed)
+        s = Surrogates(clone(data), silence_level=3)
+        script = rng.choice([["twin", "normalize", "twin"], ["twin", "twins", "normalize", "twin"],
+                             ["setter", "twins", "normalize", "twin"],
+                             ["twin", "normalize", "twins", "twin", "normalize", "twin"],
+                             ["twin", "setter-other", "twins", "twin"]])
+        rep = {"data": data.tolist(), "dimension": dim, "delay": delay, "threshold": thr,
+               "min_dist": md, "python_random_seed": seed, "history": script}
+        ctx.count("oracle:twin-after-state-change")
+        try:
+            with quiet(), np.errstate(all="ignore"):
+                for k_, op in enumerate(script):
+                    if op == "normalize":
+                        s.normalize_original_data()
+                    elif op == "setter":
+                        s.embedding = Surrogates.embed_time_series_array(s.original_data, dim, delay)
+                    elif op == "setter-other":
+                        s.embedding = Surrogates.embed_time_series_array(s.original_data[:, ::-1].copy(),
+                                                                         dim, delay)
+                    elif op == "twins":
+                        tw = s.twins(thr, md)
+                        eb = np.asarray(s.embedding, dtype=float)
+                        for i in range(N):
+                            Rb = brute_R(eb[i].reshape(eb.shape[1], eb.shape[2]), float(np.float32(thr)))
+                            if [sorted(x) for x in tw[i]] != twins_by_definition(Rb, md):
+                                ctx.fail({"kind": "twins-differ-from-definition", "class": "Surrogates",
+                                          "after": "history"},
+                                         "Surrogates.twins() is not the twin table of the embedding the "
+                                         "object holds now", dict(rep, step=k_, series=i))
+                                break
+                    else:
+                        cur = np.array(s.original_data, dtype=float)
+                        if not np.isfinite(cur).all():
+                            break
+                        out = s.twin_surrogates(dim, delay, thr, md)
+                        check_twin_surrogates(ctx, "Surrogates", out, s.twins(thr, md), cur, dim, delay,
+                                              thr, md, dict(rep, step=k_))
+        except Exception as e:  # noqa
+            ctx.fail({"kind": "raises", "method": "twin-history", "error": type(e).__name__},
+                     f"history {script} raised {type(e).__name__}: {e}", rep)
+        ctx.case(("oracle-twin-history", data.tobytes().hex(), dim, delay, thr, md, tuple(script), seed),
+                 n >= 4)
+
+    # ---- a series longer than the int16 range of the pinned neighbour counter (thorough tier;
+    #      R alone takes n_time^2 bytes = 4.3 GB, so only when memory allows) ---------------------
+    if not quick:
+        try:
+            avail = int(next(l for l in open("/proc/meminfo") if l.startswith("MemAvailable")).split()[1])
+        except Exception:  # noqa
+            avail = 0
+        if avail >= 16 * 1024 * 1024:
+            nL = 2 ** 16 + 1
+            sL = Surrogates(np.zeros((1, nL)), silence_level=3)
+            with quiet():
+                sL.embedding = Surrogates.embed_time_series_array(sL.original_data, 1, 0)
+                twL = sL.twins(0.5, nL - 3)
+            got = [twL[0][0], twL[0][1], twL[0][nL - 2], twL[0][nL - 1]]
+            exp = [[nL - 2, nL - 1], [nL - 1], [0], [0, 1]]
+            ctx.count("oracle:long-series-65537")
+            if [sorted(x) for x in got] != exp:
+                ctx.fail({"kind": "twins-differ-from-definition", "class": "Surrogates", "n_time": nL},
+                         "a constant series of 65537 samples: every state has 65537 neighbours, all "
+                         "separated pairs are twins, but twins() lists " + str(got),
+                         {"data": "np.zeros((1, 65537))", "dimension": 1, "delay": 0, "threshold": 0.5,
+                          "min_dist": nL - 3})
+            del sL, twL
+        else:
+            ctx.count("oracle:long-series-skipped-low-memory")
+
     # ---- RecurrencePlot twins on the unpatched code ---------------------------
     nrp = 400 if quick else 3000
     for c in range(nrp):
